@@ -142,11 +142,11 @@ theorem incomplete_param_never_returns (env : Env) (orc) (f : Fn) (args : List V
     (hmode : f.mode = .pedantic) (hinc : incompleteParam f = true) :
     (runCall env orc f args kw body).bodyRan = false ∧ (runCall env orc f args kw body).caller ≠ .ret ∧
     (runCall env orc f args kw body).caller ≠ .retGen := by
-  by_cases hinit : (f.firstIsSelf && args.isEmpty) = true
+  by_cases hinit : f.initFails args = true
   · unfold runCall; simp [hinit]
   · by_cases hkw : (f.shouldHaveKwargs && !(f.argsWithoutSelf args).isEmpty) = true
     · unfold runCall; simp [hinit, hkw]
-    · rw [runCall_pedantic env orc f args kw body hmode (by simpa using hinit) (by simpa using hkw)]
+    · rw [runCall_pedantic' env orc f args kw body hmode (by simpa using hinit) (by simpa using hkw)]
       cases hca : checkArguments env orc f args kw with
       | none => exact absurd hca (checkArguments_incomplete env orc f args kw hinc)
       | some c =>
@@ -156,10 +156,10 @@ theorem incomplete_param_never_returns (env : Env) (orc) (f : Fn) (args : List V
 /-- … and for a keyword call the exception is PedanticTypeCheckException -/
 theorem incomplete_param_is_typecheck (env : Env) (orc) (horc : ∀ k v, orc k v ≠ .raisedTV) (f : Fn) (args : List Val)
     (kw : List (NameId × Val)) (body : BodyOut) (hmode : f.mode = .pedantic) (hinc : incompleteParam f = true)
-    (hinit : (f.firstIsSelf && args.isEmpty) = false) (hkw : (f.shouldHaveKwargs && !(f.argsWithoutSelf args).isEmpty) = false)
+    (hinit : f.initFails args = false) (hkw : (f.shouldHaveKwargs && !(f.argsWithoutSelf args).isEmpty) = false)
     (hc : f.clazzFails args = false) :
     runCall env orc f args kw body = ⟨.pedTypeCheck, false, [], []⟩ := by
-  rw [runCall_pedantic env orc f args kw body hmode hinit hkw]
+  rw [runCall_pedantic' env orc f args kw body hmode hinit hkw]
   cases hca : checkArguments env orc f args kw with
   | none => exact absurd hca (checkArguments_incomplete env orc f args kw hinc)
   | some c => rw [checkArguments_some_tc env orc horc f args kw hc c hca]
@@ -169,11 +169,11 @@ theorem incomplete_param_is_typecheck (env : Env) (orc) (horc : ∀ k v, orc k v
 theorem incomplete_return_never_returns (env : Env) (orc) (f : Fn) (args : List Val) (kw : List (NameId × Val)) (body : BodyOut)
     (hmode : f.mode = .pedantic) (hfl : f.flavour ≠ .generator) (hinc : incompleteReturn f = true) :
     (runCall env orc f args kw body).caller ≠ .ret := by
-  by_cases hinit : (f.firstIsSelf && args.isEmpty) = true
+  by_cases hinit : f.initFails args = true
   · unfold runCall; simp [hinit]
   · by_cases hkw : (f.shouldHaveKwargs && !(f.argsWithoutSelf args).isEmpty) = true
     · unfold runCall; simp [hinit, hkw]
-    · rw [runCall_pedantic env orc f args kw body hmode (by simpa using hinit) (by simpa using hkw)]
+    · rw [runCall_pedantic' env orc f args kw body hmode (by simpa using hinit) (by simpa using hkw)]
       cases hca : checkArguments env orc f args kw with
       | some c => exact fun h => absurd (by simpa using h ▸ hca) (checkArguments_ne_ret env orc f args kw).1
       | none =>
